@@ -22,7 +22,11 @@ def avoid_set():
     """development knob (never set by the registered commands): VERIF_LMM_AVOID=zero_cap,fb_fatpipe,cb_ignored,
     bmf_bound_penalty,bmf_bound,bmf_fatpipe,zero_weight keeps the generator away from the triggers of defects already found, so that a campaign (or a
     mutant run) can look for *other* ones. The plan records it."""
-    return sorted(x for x in os.environ.get('VERIF_LMM_AVOID', '').split(',') if x)
+    # default: stay away from the triggers of the findings listed in /verif/known_findings.json (each of them is
+    # replayed from its recorded input by the runner); VERIF_LMM_AVOID=none explores everything again
+    dflt = 'zero_cap,fb_fatpipe,cb_ignored,bmf_bound_penalty,bmf_bound,bmf_fatpipe,zero_weight'
+    v = os.environ.get('VERIF_LMM_AVOID', dflt)
+    return sorted(x for x in v.split(',') if x and x != 'none')
 
 
 def gen_history(seed, tier, solvers, selective=None, dump_every=False, fresh=False, limits_bias=0.5,
